@@ -975,6 +975,9 @@ func tryReplay(cfg *runConfig, o *Obligation, rec *replayRecord) (bool, string) 
 		if len(expected) == 0 {
 			return false, "no comparable outputs"
 		}
+		if g.Ctx.uninterpreted() {
+			return false, "the VC contains uninterpreted symbols (recursive spec function, uninterpreted float operation or library function): equal outputs do not establish that the postcondition is false on the real code; obligation undecided on this input"
+		}
 		for i, e := range expected {
 			if e == "?" {
 				return false, "result not comparable"
